@@ -67,6 +67,11 @@ def wallet_ops(ctx):
                 amt = {"part": have / 7, "over": have * 3, "float": float(have) / 7, "0": Decimal(0)}[cls]
                 return getattr(c.broker, fn)(a, b, amt, row)
             out.append(Op(f"wallet.{fn}[{a.name}->{b.name},{cls}]", call, cls != "part" or fn == "swap_by_to", f"wallet.{fn}"))
+
+        def no_price(c, fn=fn):
+            # the other token has no price in this bar: the swap can not be priced and nothing may move
+            return getattr(c.broker, fn)(a, TokenInfo("NOPRICE", 18), bal(a) / 7, c.price_row())
+        out.append(Op(f"wallet.{fn}[{a.name}->NOPRICE]", no_price, True, f"wallet.{fn}"))
     return out
 
 
